@@ -260,10 +260,28 @@ class InProtocolBase(ProtocolMixin):
         return value
 
     def any_xml_from_bytes(self, cls, string):
+        # this is text from the request as well: it's parsed the way the xml
+        # protocols parse request documents by default.
+        parser = etree.XMLParser(resolve_entities=False, no_network=True,
+                          load_dtd=False, dtd_validation=False, huge_tree=False)
+
         try:
-            return etree.fromstring(string)
+            retval = etree.fromstring(string, parser)
+
         except etree.XMLSyntaxError as e:
             raise ValidationError(string, "%%r: %r" % e)
+
+        except ValueError as e:
+            # lxml does not take text that comes with an encoding declaration
+            raise ValidationError(string, "%%r: %r" % e)
+
+        dtd = retval.getroottree().docinfo.internalDTD
+        if dtd is not None:
+            for _ in dtd.iterentities():
+                raise ValidationError(string,
+                                  "%r: Entity declarations are not allowed")
+
+        return retval
 
     def any_html_from_bytes(self, cls, string):
         try:
